@@ -39,7 +39,8 @@ def match_known(known, *, obligation=None, case=None, failure=None):
     for e in known:
         m = e.get("match", {})
         if obligation is not None and "obligations" in m:
-            if any(obligation == pat or (pat.endswith("*") and obligation.startswith(pat[:-1])) for pat in m["obligations"]):
+            import fnmatch
+            if any(fnmatch.fnmatchcase(obligation, pat.replace("[", "[[]")) for pat in m["obligations"]):
                 return e
         if case is not None and "case_predicate" in m:
             try:
@@ -75,7 +76,8 @@ def main(argv=None):
     try:
         if args.only in (None, "deductive"):
             from checks import deductive
-            ded = deductive.run(prop, tier, REPO)
+            pats = [p_ for k in known for p_ in k.get("match", {}).get("obligations", [])]
+            ded = deductive.run(prop, tier, REPO, pats)
         if args.only in (None, "bounded"):
             from checks import boundedrun
             bnd = boundedrun.run(prop, tier, seed, REPO)
@@ -124,6 +126,27 @@ def main(argv=None):
                     path = write_replay(prop, rep)
                     violations.append("VIOLATION property=%s replay=%s obligation=%s no-failing-input-found" % (prop, path, o["name"]))
             else:
+                k = match_known(known, obligation=o["name"])
+                if k is not None:
+                    known_hits.append((k, o["name"]))     # an obligation of a recorded finding: not re-litigated
+                    continue
+                # a candidate counter-model from a weakened formula is believed only if the real code fails on it
+                if o.get("candidate_model") and o.get("carry", True):
+                    try:
+                        from checks import boundedrun, modelutil
+                        o2 = dict(o, model=modelutil.from_candidate(o["candidate_model"]))
+                        failing = boundedrun.replay_model(prop, o2, REPO)
+                    except Exception:
+                        failing = None
+                    if failing:
+                        case, fails = failing
+                        if match_known(known, case=case, failure="; ".join(fails)) is None:
+                            rep = dict(property=prop, kind="obligation", obligation=o["name"], function=o.get("function"),
+                                       solver="z3-nlsat (candidate model, confirmed by replay)", model=o2["model"], case=case,
+                                       failures=fails, replayed=True, tier=tier)
+                            path = write_replay(prop, rep)
+                            violations.append("VIOLATION property=%s replay=%s obligation=%s" % (prop, path, o["name"]))
+                            continue
                 undecided.append("UNDECIDED property=%s obligation=%s reason=%s" % (prop, o["name"], o.get("detail") or "unknown"))
         for f in ded["functions"]:
             if f.get("error"):
